@@ -290,6 +290,8 @@ def run(ctx: Ctx) -> None:
         g = G(rnd, rich=(i % 3 == 0 and i % 7 != 0), wild=(i % 7 == 0))
         exprs.append(g.top(rnd.randint(1, 4)))
         ctx.count('stream:' + ('ill-typed' if g.wild else 'well-typed') + ('+rich' if g.rich else ''))
+    # the recorded finding, replayed on every run: a short octal escape at the end of a literal joined with a digit
+    exprs.append(('chain', 4, ('str', '"\\2"'), [('+', ('str', '"0"'))]))
     texts = [text(e) for e in exprs]
     results = evalrun.eval_exprs(texts)
     cases, raw = [], []
@@ -319,6 +321,8 @@ def run(ctx: Ctx) -> None:
                 kinds = sorted(set(o for o in ops if not o.startswith('lit')))
                 involved = sorted(set(o for o in ops if o.startswith('lit')))
                 sig = 'wrong-value:%s:%s' % ('/'.join(shrink_sig(t, r, py)), type(r[1]).__name__)
+                if SHORT_OCTAL.search(t):
+                    sig = 'wrong-value:short-octal-escape-joined'      # "\\2" + "0": the literal texts are joined, the escape swallows the digit
                 ctx.violation(sig, 'folded value differs from the value CPython evaluates (%s)' % sig,
                               dict(input=dict(expression=t), oracle_result=repr(py), impl_result=repr(r)))
         elif r[0].startswith('LEAK'):
@@ -380,6 +384,10 @@ def shrink_sig(t, r, py):
             kinds.append(type(node.value).__name__)
     return sorted(set(kinds))
 
+
+
+# a string literal that ends with an octal escape of one or two digits, followed by `+`
+SHORT_OCTAL = re.compile(r'''(?<!\\)(?:\\\\)*\\[0-7]{1,2}["']\s*\+''')
 
 
 def enum_references(ctx: Ctx) -> None:
